@@ -21,13 +21,13 @@ UNIT = dict(
     cfg=dict(
         type_map={'string': 'vstr', 'SlaveSymbolString': 'SymbolString', 'MasterSymbolString': 'SymbolString', 'Message': 'struct Message'},
         members={'m_fields', 'm_dataType', 'm_name', 'm_message', 'm_lastCheckTime', 'm_isTrue', 'm_hasValues', 'm_field', 'm_conditions', 'm_valueRanges', 'm_matchedValue',
-                 'm_lastUpdateTime', 'm_lastChangeTime', 'm_lastSlaveData', 'm_data'},
+                 'm_lastUpdateTime', 'm_lastChangeTime', 'm_lastSlaveData', 'm_data', 'm_condition', 'm_createTime', 'm_availableSinceTime'},
         ranges={'m_fields': ('const struct SDF*', 'fvec_size', 'fvec_at'), 'm_conditions': ('struct Cond*', 'cvec_size', 'cvec_at')},
         methods={'hasField': [(r'^field$', 'SDF_hasField'), (r'm_data$', 'DFS_hasField')], 'getName': 'SDF_getName', 'isNumeric': 'DataType_isNumeric',
-                 'getLastChangeTime': 'Message_getLastChangeTime', 'isTrue': 'Cond_isTrue',
+                 'getLastChangeTime': 'Message_getLastChangeTime', 'getLastCheckTime': 'Cond_getLastCheckTime', 'isTrue': 'Cond_isTrue',
                  'decodeLastDataNumField': 'Message_decodeLastDataNumField', 'length': 'vstr_length', 'c_str': 'vstr_c_str', 'size': [(r'm_valueRanges$', 'rvec_size'), (r'^data$', 'SymbolString_size')]},
         index=[(r'^m_valueRanges$', 'rvec_at')],
-        own_methods={'checkValue': ('Cond_checkValue', 'self')},
+        own_methods={'checkValue': ('Cond_checkValue', 'self'), 'getAvailableSinceTime': ('Message_getAvailableSinceTime', 'self'), 'isAvailable': ('Message_isAvailable', 'self')},
         text_subs=[(r'fieldName == self->m_name', 'vstr_eq_cstr(&self->m_name, fieldName)'), (r'fieldName (==|!=) (SDF_getName\([^()]*\))', lambda m: '%svstr_eq_cstr_v(%s, fieldName)' % ('!' if m.group(1) == '!=' else '', m.group(2))), (r'Cond_checkValue\(self, self->m_message, self->m_field\)', 'Cond_checkValue(self, self->m_message, self->m_field)'), (r'self->m_matchedValue = AttributedItem_formatInt\(value\);', 'self->m_matchedValue = value;'),
                    (r'AttributedItem::formatInt', 'AttributedItem_formatInt'), (r'self->m_lastSlaveData != \(\*data\)', 'SymbolString_differs(&self->m_lastSlaveData, data)'),
                    (r'time\(&self->m_lastUpdateTime\)', 'env_time(&self->m_lastUpdateTime)')],
@@ -38,6 +38,8 @@ UNIT = dict(
         dict(file=MSG_CPP, name='SimpleCondition::isTrue', cname='SimpleCondition_isTrue', self='struct Cond'),
         dict(file=MSG_CPP, name='CombinedCondition::isTrue', cname='CombinedCondition_isTrue', self='struct CombCond'),
         dict(file=MSG_CPP, name='SimpleNumericCondition::checkValue', cname='NumCond_checkValue', self='struct Cond'),
+        dict(file=MSG_CPP, name='Message::getAvailableSinceTime', cname='Message_getAvailableSinceTime', self='struct Message'),
+        dict(file=MSG_CPP, name='Message::isAvailable', cname='Message_isAvailable', self='struct Message'),
         dict(file=MSG_CPP, name='Message::storeLastData', sig='(size_t index, const SlaveSymbolString& data)', cname='Message_storeLastSlave', self='struct Message'),
     ],
     runs=[],
@@ -53,3 +55,4 @@ R('hasField', 'h_hasField', None, unwind=26, defines=['VSTR_CAP=4', 'SS_CAP=16']
 R('cond_steps', 'h_cond_steps', None, unwind=18, defines=['VSTR_CAP=4', 'SS_CAP=16'], cost=20)
 R('num_check', 'h_num_check', None, unwind=6, solver='kissat', defines=['VSTR_CAP=4', 'SS_CAP=16'], cost=10)
 R('combined', 'h_combined', None, unwind=10, defines=['VSTR_CAP=4', 'SS_CAP=16'], cost=10)
+R('available', 'h_available', None, unwind=4, defines=['VSTR_CAP=4', 'SS_CAP=16'], cost=5)
